@@ -10,6 +10,9 @@ fn usage() -> ! {
 
 fn arg_val(args: &[String], name: &str) -> Option<String> { args.iter().position(|a| a == name).and_then(|i| args.get(i + 1).cloned()) }
 
+#[global_allocator]
+static ALLOC: mssim::alloc_track::Tracking = mssim::alloc_track::Tracking;
+
 fn main() {
     let args: Vec<String> = std::env::args().collect();
     if args.len() < 2 {
@@ -46,9 +49,13 @@ fn main() {
             let h = args.get(2).cloned().unwrap_or_default();
             match mssim::faultio::case_from_hex(&h) {
                 Some(c) => {
-                    let r = std::panic::catch_unwind(|| mssim::faultio::wire_exec(&c));
+                    let r = std::panic::catch_unwind(|| mssim::faultio::wire_exec_guarded(&c));
                     match r {
-                        Ok(_) => std::process::exit(0),
+                        Ok(Ok(_)) => std::process::exit(0),
+                        Ok(Err(m)) => {
+                            println!("{}", m);
+                            std::process::exit(101);
+                        }
                         Err(_) => {
                             println!("panic");
                             std::process::exit(101);
